@@ -604,6 +604,8 @@ class Engine:
             self.unsupported(node, "isinstance with symbolic class")
         if type(clsval).__name__ == "ExtV":
             clsval = ClassV(ext=clsval.dotted)
+        if isinstance(clsval, BuiltinV):
+            clsval = ClassV(ext=clsval.name)
         if not isinstance(clsval, ClassV):
             self.unsupported(node, "isinstance against %r" % (clsval,))
         name = clsval.name
